@@ -319,7 +319,7 @@ Import Coq.Strings.String.StringSyntax.
 Definition H (t e : String.string) (safe : bool) (f : list origin) := mkHole (bs t) (bs e) safe f.
 Arguments H t%string_scope e%string_scope safe f.
 (* one entry per distinct (template, expression text) pair; the check extracts the same list from the
-   template files on every run.  `parent.0`: html.rs gen_html builds it from --abs-link-prefix joined with
+   template files on every run.  `parent.0` (marked `safe` until fix 6a2db8b, defect F13): html.rs gen_html builds it from --abs-link-prefix joined with
    the directory of the file when the prefix is given (../index.html or ./index.html otherwise). *)
 Definition html_holes : list hole_info :=
   [ H "base.html" "bulma_url | safe" true [OConst; OOption];
@@ -344,7 +344,7 @@ Definition html_holes : list hole_info :=
     H "macros.html" "covered" false [ONumber];
     H "macros.html" "total" false [ONumber];
     H "macros.html" "per | round(precision=precision)" false [ONumber];
-    H "macros.html" "parent.0 | safe" true [OConst; OOption; OName];
+    H "macros.html" "parent.0" false [OConst; OOption; OName];
     H "macros.html" "parent.1" false [OConst; OName];
     H "macros.html" "current" false [OConst; OName];
     H "macros.html" "self::summary_line(kind=""lines"", covered=stats.covered_lines, total=stats.total_lines, precision=precision)" false [OMacro];
@@ -368,10 +368,6 @@ Definition html_holes : list hole_info :=
 Definition untrusted (o : origin) : bool := match o with OName | OSource => true | _ => false end.
 (* the hole is rendered without escaping: marked safe, or a macro call (Tera never escapes those) *)
 Definition unescaped (h : hole_info) : bool := h_safe h || existsb (fun o => match o with OMacro => true | _ => false end) (h_from h).
-(* known finding F13 *)
-Definition KnownClass_safe_parent_link (h : hole_info) : bool :=
-  bytes_eqb (h_tpl h) (bs "macros.html") && bytes_eqb (h_expr h) (bs "parent.0 | safe").
-
 (* the breadcrumb entry of macros.html:16 as Tera renders it, and the link html.rs:434-450 puts in it *)
 Definition parent_link (abs_prefix : option bytes) (parent : bytes) : bytes :=
   match abs_prefix with
